@@ -272,6 +272,19 @@ static void BuildBases(const vf::Args &a) {
     EncoderBuffer eb;
     if (EncodeSymbols(sym.data(), n, comps, &opt, &eb)) g_bases.push_back({"symbols/" + std::to_string(i), std::string(eb.data(), eb.size()), kSymbols, n | (comps << 16)});
   }
+  // Hostile-by-construction inputs (well-formed, nothing corrupted): sub-metadata nested 100000 deep, as a bare
+  // metadata blob and behind the header of a mesh stream. The decoder must refuse (its nesting limit is 1000)
+  // instead of building a structure whose destruction recurses that deep.
+  {
+    std::string deep;
+    deep.push_back(0);                       // number of attribute metadata
+    for (int i = 0; i < 100000; ++i) { deep.push_back(0); deep.push_back(1); deep.push_back(1); deep.push_back('a'); }  // entries=0, subs=1, name "a"
+    deep.push_back(0); deep.push_back(0);    // innermost: no entries, no sub-metadata
+    g_bases.push_back({"metadata/deep-nesting", deep, kMetadata, 0});
+    std::string hdr("DRACO", 5);
+    hdr.push_back(2); hdr.push_back(2); hdr.push_back(1); hdr.push_back(0); hdr.push_back(0); hdr.push_back(static_cast<char>(0x80));  // v2.2 mesh sequential, flags = metadata
+    g_bases.push_back({"hostile/deep-nesting-mesh", hdr + deep, kGeometry, 0});
+  }
   // Systematic plan over the short bases.
   for (size_t b = 0; b < g_bases.size(); ++b) {
     const int64_t L = static_cast<int64_t>(g_bases[b].bytes.size());
@@ -281,6 +294,7 @@ static void BuildBases(const vf::Args &a) {
       // pattern per offset.
       const uint8_t maj = static_cast<uint8_t>(g_bases[b].bytes[5]), mnr = static_cast<uint8_t>(g_bases[b].bytes[6]);
       if (!thorough && g_bases[b].kind == kGeometry && L <= 3000 && (maj < 2 || (maj == 2 && mnr < 2))) { const int64_t n = (L / 4 + 1) + 3 * L; g_plan.push_back({static_cast<int>(b), 5, n, g_plan_total}); g_plan_total += n; }
+      else { g_plan.push_back({static_cast<int>(b), 6, 1, g_plan_total}); g_plan_total += 1; }  // at least once as it is
       continue;
     }
     const int64_t counts[4] = {L + 1, 8 * L, 6 * L, 4 * L};  // truncation length L = the unmodified stream
@@ -386,9 +400,10 @@ int main(int argc, char **argv) {
           else { const int64_t q = j - nt - 2 * L; mutated = MutU32(b, q, 4); how = "u32@" + std::to_string(q) + "/pat4"; }
           break;
         }
+        case 6: mutated = b; how = "as-is"; break;
         default: mutated = MutMagic(b, j / 16, j % 16); how = "magic@" + std::to_string(j / 16) + "/pat" + std::to_string(j % 16); break;
       }
-      rep.count("mutation/" + std::string(sg.kind == 0 ? "truncate" : sg.kind == 1 ? "byte" : sg.kind == 2 ? "u32" : sg.kind == 3 ? "varint" : sg.kind == 4 ? "wrap-magic" : "legacy-thinned"));
+      rep.count("mutation/" + std::string(sg.kind == 0 ? "truncate" : sg.kind == 1 ? "byte" : sg.kind == 2 ? "u32" : sg.kind == 3 ? "varint" : sg.kind == 4 ? "wrap-magic" : sg.kind == 5 ? "legacy-thinned" : "as-is"));
     } else {
       const int64_t kk = k - sys_cases;
       const int mode = static_cast<int>(kk % 8);
